@@ -46,7 +46,7 @@ def relayout_after_switch(ctx, w, S, R, rule="P7"):
         ctx.violation(rule, "floor", "only %d screen-switch call sites found (4 confirmed by reading: enter/leave for 47|1047 and 1049)" % n)
 
 
-def run(ctx, w):
+def _run(ctx, w):
     S = shared.screen(w)
     R = shared.roles(w)
     E = w.E
@@ -184,11 +184,11 @@ def run(ctx, w):
     if enter:
         T = w.terms(enter)
         b = w.body(enter)
-        news = [cs for cs in E.call_sites(enter, S.buffer_ctor)]
+        from rules import c06 as _c06
+        news = _c06.ctor_sites(w, S, enter)
         ok = len(news) == 1
         if ok:
-            cs = news[0]
-            a = [WD.strip_names(T.operand(x, cs.point)) for x in cs.term["args"]]
+            cs, a = news[0]
             want = [("load", ("arg1", R["cols"])), ("load", ("arg1", R["rows"])), ("adt", "core::option::Option", "Some", ("0",), (("const", 0),)),
                     ("adt", "core::option::Option", "Some", ("0",), (("ref", False, ("load", ("arg1", R["pen"]))),))]
             dest = w.definite_path(enter, cs.term["dest"])
@@ -233,3 +233,10 @@ def run(ctx, w):
     # "1049 saves the cursor on entry and restores it on exit ... puts the cursor back on
     # the same character": the save/restore pairing and per-screen context rules of C17
     c17.run(ctx, w, embedded=True)
+
+
+def run(ctx, w):
+    _run(ctx, w)
+    # the commands of this property must first of all be DECODED as specified (selector values, parameter slots, finals)
+    from rules import c03
+    shared.embed(ctx, w, c03.dispatch_rules)
